@@ -131,10 +131,11 @@ def raw(oms_list):
              list(o.spectrum_bitmap.freq_index), o.nb_channels, list(o.service_list)) for o in oms_list]
 
 
-def drive(case):
-    """run the history on the real code; returns (initial observed OMS headers, per-step records)"""
-    import gnpy.topology.spectrum_assignment as sa
-    from gnpy.topology.spectrum_assignment import OMS, BitmapValue, nvalue_to_frequency, pth_assign_spectrum
+def make_world(case):
+    """real OMS objects (+ path element objects per request) for a case"""
+    from gnpy.topology.spectrum_assignment import OMS, BitmapValue, nvalue_to_frequency
+    if case.get('kind') == 'network':
+        return make_network_world(case)
     val = {'u': BitmapValue.UNUSABLE, '0': BitmapValue.OCCUPIED, '1': BitmapValue.FREE}
     grid = 0.00625e12
     oms_list = []
@@ -144,6 +145,120 @@ def drive(case):
                            guardband=case['gb'] * grid, grid=grid,
                            existing_spectrum=[val[c] for c in o['cells']])
         oms_list.append(om)
+    paths = [([NS(oms_id=i) for i in r['pth']], [NS(oms_id=i) for i in r['rpth']]) for r in case['requests']]
+    return oms_list, paths
+
+
+# ---- network level: real designed network, real build_oms_list, real path elements
+_EQ = None
+
+
+def equipment():
+    global _EQ
+    if _EQ is None:
+        import logging
+        from pathlib import Path
+        import gnpy
+        from gnpy.tools.json_io import load_equipment
+        logging.disable(logging.CRITICAL)
+        _EQ = load_equipment(Path(gnpy.__file__).parent / 'example-data' / 'eqpt_config.json')
+    return _EQ
+
+
+def rand_topo(rng, n_roadm, extra_edges, ila_prob=0.4, maxlen=120):
+    names = [chr(65 + i) for i in range(n_roadm)]
+    edges = set()
+    order = names[:]
+    rng.shuffle(order)
+    for i in range(1, len(order)):
+        edges.add(tuple(sorted((order[i], rng.choice(order[:i])))))
+    tries = 0
+    while len(edges) < n_roadm - 1 + extra_edges and tries < 100:
+        a, b = rng.sample(names, 2)
+        edges.add(tuple(sorted((a, b))))
+        tries += 1
+    els, cx = [], []
+    for x in names:
+        els += [{'uid': f'trx {x}', 'type': 'Transceiver'}, {'uid': f'roadm {x}', 'type': 'Roadm'}]
+        cx += [(f'trx {x}', f'roadm {x}'), (f'roadm {x}', f'trx {x}')]
+    for (a, b) in sorted(edges):
+        for (s_, t_) in ((a, b), (b, a)):
+            nsp = 1 + (rng.random() < ila_prob) + (rng.random() < ila_prob / 2)
+            prev = f'roadm {s_}'
+            for k in range(nsp):
+                fu = f'fiber {s_}{t_}_{k}'
+                els.append({'uid': fu, 'type': 'Fiber', 'type_variety': 'SSMF',
+                            'params': {'length': round(rng.uniform(20, maxlen), 3), 'length_units': 'km',
+                                       'loss_coef': 0.2, 'con_in': None, 'con_out': None}})
+                cx.append((prev, fu))
+                prev = fu
+            cx.append((prev, f'roadm {t_}'))
+    return {'elements': els, 'connections': [{'from_node': a, 'to_node': b} for a, b in cx]}, names
+
+
+def gen_network_case(rng):
+    import networkx as nx
+    n = rng.randint(3, 6)
+    topo, names = rand_topo(rng, n, rng.randint(0, 3))
+    case = {'kind': 'network', 'policy': 'first_fit', 'gb': 4, 'topology': topo, 'requests': []}
+    oms_list, _, net = make_network_world(case, want_net=True)
+    by_uid = {nd.uid: nd for nd in net.nodes()}
+    for r in range(rng.randint(4, 40)):
+        a, b = rng.sample(names, 2)
+        cands = list(nx.shortest_simple_paths(net, by_uid[f'trx {a}'], by_uid[f'trx {b}']))[:4] \
+            if n <= 5 else [nx.shortest_path(net, by_uid[f'trx {a}'], by_uid[f'trx {b}'])]
+        pth = rng.choice(cands)
+        spacing = rng.choice([37.5e9, 50e9, 50e9, 62.5e9, 75e9, 100e9, 150e9])
+        bit_rate = rng.choice([100e9, 200e9, 400e9])
+        nb = rng.choice([1, 2, 4, 8, 16, 30])
+        pcm = ceil(spacing / 12.5e9)
+        nslots = rng.choice([1, 1, 1, 2, 3])
+        N, M = [], []
+        for _ in range(nslots):
+            mm = rng.choice([None, None, pcm * rng.choice([1, 2, 4, 8])])
+            half = mm if mm is not None else pcm
+            nn = rng.choice([None, None, rng.randint(-284 + half, 476 - half + 1), rng.randint(-300, 500)])
+            N.append(nn)
+            M.append(mm)
+        case['requests'].append({'id': r + 1, 'pre_blocked': rng.random() < 0.05, 'bw': bit_rate * nb, 'sp': spacing,
+                                 'br': bit_rate, 'N': N, 'M': M, 'path_uids': [e.uid for e in pth],
+                                 'bidir': rng.random() < 0.7, 'pth': [], 'rpth': []})
+    return case
+
+
+def make_network_world(case, want_net=False):
+    import copy as _copy
+    from gnpy.tools.json_io import network_from_json
+    from gnpy.tools.worker_utils import designed_network
+    from gnpy.topology.spectrum_assignment import build_oms_list
+    from gnpy.topology.request import find_reversed_path
+    from gnpy.core.elements import Roadm, Transceiver
+    eq = equipment()
+    net = network_from_json(_copy.deepcopy(case['topology']), eq)
+    net, _, _ = designed_network(eq, net)
+    oms_list = build_oms_list(net, eq)
+    by_uid = {nd.uid: nd for nd in net.nodes()}
+    paths = []
+    for r in case['requests']:
+        pth = [by_uid[u] for u in r['path_uids']]
+        rpth = find_reversed_path(pth) if r['bidir'] else []
+        # independent derivation of the OMS ids of path + reverse path (from the OMS element lists, not elem.oms_id)
+        ids = []
+        for el in pth + rpth:
+            if not isinstance(el, (Roadm, Transceiver)):
+                own = [o.oms_id for o in oms_list if el.uid in o.el_id_list[1:-1]]
+                r.setdefault('_own_errors', []).extend([] if len(own) == 1 else [f'{el.uid} in OMS {own}'])
+                ids += own[:1]
+        r['pth'], r['rpth'] = ids, []
+        paths.append((pth, rpth))
+    return (oms_list, paths, net) if want_net else (oms_list, paths)
+
+
+def drive(case):
+    """run the history on the real code; returns (initial observed OMS headers, per-step records)"""
+    import gnpy.topology.spectrum_assignment as sa
+    from gnpy.topology.spectrum_assignment import pth_assign_spectrum
+    oms_list, paths = make_world(case)
     init = raw(oms_list)
     ids = {f"r{r['id']}": r['id'] for r in case['requests']}
     captured = []
@@ -156,13 +271,11 @@ def drive(case):
     sa.build_path_oms_id_list = wrapped
     steps = []
     try:
-        for r in case['requests']:
+        for r, (pth, rpth) in zip(case['requests'], paths):
             rq = NS(request_id=f"r{r['id']}", path_bandwidth=r['bw'], spacing=r['sp'], bit_rate=r['br'],
                     N=list(r['N']), M=list(r['M']))
             if r['pre_blocked']:
                 rq.blocking_reason = 'NO_PATH'
-            pth = [NS(oms_id=i) for i in r['pth']]
-            rpth = [NS(oms_id=i) for i in r['rpth']]
             before = raw(oms_list)
             captured.clear()
             rec = {'rq': r, 'before': before}
@@ -220,6 +333,8 @@ def oracle(case, init, steps):
             fails.append(('exception', f"request {r['id']}: {st['exc']} (neither used-as-given nor blocked)"))
             continue
         path = sorted(set(r['pth'] + r['rpth']))
+        for err in r.get('_own_errors', []):
+            fails.append(('element_oms_membership', f"request {r['id']}: line element {err}"))
         if sorted(st['path_oms']) != path or len(set(st['path_oms'])) != len(st['path_oms']):
             fails.append(('path_oms', f"request {r['id']}: OMS set {st['path_oms']} != OMS of path+reverse {path}"))
         if out == 'S' or out.startswith('B:'):
@@ -280,6 +395,25 @@ def oracle(case, init, steps):
 
 
 # ------------------------------------------------------------------ model side
+def shrink(case, key):
+    """greedy minimisation of a failing history: drop requests while the oracle still reports `key`"""
+    def fails(c):
+        try:
+            init, steps = drive(c)
+            return any(k == key for k, _ in oracle(c, init, steps))
+        except Exception:
+            return False
+    cur = {k: v for k, v in case.items() if not k.startswith('_')}
+    changed = True
+    while changed and len(cur['requests']) > 1:
+        changed = False
+        for i in range(len(cur['requests']) - 1, -1, -1):
+            cand = dict(cur, requests=cur['requests'][:i] + cur['requests'][i + 1:])
+            if cand['requests'] and fails(cand):
+                cur, changed = cand, True
+    return cur
+
+
 def coq_term(case, init, steps):
     obs = []
     for (n_min, n_max, fi_min, fi_max, cells, idx, nch, svc) in init:
@@ -344,6 +478,7 @@ def run(ctx):
         n = ctx.scale(400, 6000)
         nbig = ctx.scale(12, 150)
         cases += [gen_case(rng) for _ in range(n)] + [gen_case(rng, big=True) for _ in range(nbig)]
+        cases += [gen_network_case(rng) for _ in range(ctx.scale(10, 120))]
     terms, meta = [], []
     for c in cases:
         init, steps = drive(c)
@@ -359,9 +494,16 @@ def run(ctx):
             if s['out'].startswith('B:'):
                 ctx.count('reason_' + s['out'][2:])
         ctx.count('requests', len(steps))
+        ctx.count('cases_network' if c.get('kind') == 'network' else 'cases_synthetic')
         ctx.count('oms_total', len(init))
+        seen_keys = set()
         for key, desc in oracle(c, init, steps):
-            ctx.violation(key, desc, {k: v for k, v in c.items() if not k.startswith('_')})
+            if key in seen_keys:
+                continue
+            seen_keys.add(key)
+            small = shrink(c, key) if len(ctx.violations) < 5 else c
+            ctx.violation(key, desc, {k: v for k, v in small.items() if not k.startswith('_')},
+                          original_requests=len(c['requests']))
         terms.append(coq_term(c, init, steps))
         meta.append((c, impl_line(steps)))
     lines = common.coq_eval('C14', 'Prelude Model.Spectrum Run.C14', terms, per_file=60)
